@@ -91,7 +91,7 @@ func typeName(n interface{}) string {
 }
 
 // laws checks the correspondence between one ast tree and one dst tree through the two maps.
-func laws(t h.TB, sub string, c Case, who string, af *ast.File, df *dst.File, toDst map[ast.Node]dst.Node, toAst map[dst.Node]ast.Node) (collapsed int) {
+func laws(t h.TB, sub string, c Case, who string, af ast.Node, df dst.Node, toDst map[ast.Node]dst.Node, toAst map[dst.Node]ast.Node) (collapsed int) {
 	for k := range toDst {
 		if k == nil || reflect.ValueOf(k).IsNil() {
 			h.Fail(t, sub, c, "%s: nil key in Dst.Nodes (%T)", who, k)
